@@ -1,8 +1,8 @@
 """C11 - every computed route is a real, loop-free, constraint-respecting shortest path.
 
 B1  TLC checks RoutingModel (the router at the grain of compute_constrained_path / compute_path_dsjctn) against the
-    clauses of Routing.tla: exhaustively on all 64 weighted 3-site meshes (all end points, all include lists, all
-    pairs of requests) and on 4-site meshes (quick: the seeded sample replayed below; thorough: all 4 096), plus
+    clauses of Routing.tla: exhaustively on all 64 weighted 3-site meshes (all end points, all include lists of <= 2
+    ROADMs, all labellings) and on 4-site meshes (quick: the seeded sample replayed below; thorough: all 4 096), plus
     model-level sanity of the judgement (what the model does not allow is rejected).
 B2  MC_Routing's generation configuration emits (mesh, batch) cases; every mesh becomes a real topology, is
     auto-designed once and every batch goes through the real pipeline functions in planning() order; the returned
@@ -11,6 +11,7 @@ B3  shipped networks: mesh V2 with its services file through the real planning()
     the oracle) and on CORONET (too large for enumeration: reality / loop-freeness / STRICT hops / reverse only).
 """
 import random
+import time
 
 from harness import tlc
 from harness import routing_util as ru
@@ -20,22 +21,26 @@ PID = 'C11'
 
 TIERS = {
     #            4-site meshes, singles 1-in-Thin, lines, twins, pairs (free riders), 5-site meshes, Thin5, B3 seeded, CORONET
-    'quick': dict(meshes4=300, thin=11, lines=12, twins=2, pairs=6, meshes5=0, thin5=0, b3=40, conus=14, glob=0),
-    'thorough': dict(meshes4=None, thin=5, lines=20, twins=3, pairs=6, meshes5=150, thin5=15, b3=300, conus=60, glob=25),
+    'quick': dict(meshes4=300, thin=15, lines=12, twins=2, pairs=6, meshes5=0, thin5=0, b3=40, conus=14, glob=0),
+    'thorough': dict(meshes4=None, thin=6, lines=20, twins=3, pairs=6, meshes5=150, thin5=15, b3=300, conus=60, glob=25),
 }
 
 
-def b1(chk, ids4):
-    r = tlc.run('MC_Routing', cfg_file='MC_Routing_small.cfg', timeout=1800, tag='c11-mc3')
-    chk.add_mc('MC_Routing 3 sites: all 64 meshes, all requests, all pairs', r)
-    if ids4 is None:
-        r = tlc.run('MC_Routing', timeout=3000, tag='c11-mc4')
-        chk.add_mc('MC_Routing 4 sites: all 4096 meshes, src/dst fixed by symmetry, all include lists <= 2', r)
-    else:
-        r = tlc.run('MC_Routing', cfg_text=ru.mc_cfg(UseSample=True),
-                    extra_modules={'RoutingSample': ru.sample_module(ids4)}, timeout=1800, tag='c11-mc4')
-        chk.add_mc(f'MC_Routing 4 sites: {len(ids4)} sampled meshes, all include lists <= 2', r)
-    chk.exhaustive = True
+def b1_runs(ids4, w):
+    """the two model-checking runs of B1 as thunks (run side by side with the generation)"""
+    def small():
+        return ('MC_Routing 3 sites: all 64 meshes, all src/dst, all include lists <= 2, all labellings',
+                tlc.run('MC_Routing', cfg_text=ru.mc_cfg(NSites=3, OneSrcDst=False, LinePer=12, TwinPer=3, PairPer=9),
+                        timeout=1800, tag='c11-mc3', workers=w))
+
+    def four():
+        if ids4 is None:
+            return ('MC_Routing 4 sites: all 4096 meshes, src/dst fixed by symmetry, all include lists <= 2',
+                    tlc.run('MC_Routing', timeout=3000, tag='c11-mc4', workers=w))
+        return (f'MC_Routing 4 sites: {len(ids4)} sampled meshes, all include lists <= 2',
+                tlc.run('MC_Routing', cfg_text=ru.mc_cfg(UseSample=True), workers=w,
+                        extra_modules={'RoutingSample': ru.sample_module(ids4)}, timeout=1800, tag='c11-mc4'))
+    return small, four
 
 
 def keep_for_c11(b):
@@ -49,24 +54,39 @@ def keep_for_c11(b):
 
 
 def run(chk):
+    if chk.replay:
+        return ru.replay(chk, PID)
+    chk.cov['rule'] = ('cases are (mesh, batch) pairs enumerated by MC_Routing (all include lists of <= 2 ROADMs with all labellings, thinned 1-in-Thin by a hash; seeded fibre include lists, twins, pairs with a free rider) plus seeded batches on shipped networks; distinct = distinct (network, requests, groups); non-trivial = the batch has an include list or a synchronisation group')
     p = TIERS[chk.tier]
     rng = random.Random(chk.seed)
     salt = chk.seed % 10007
     all4 = p['meshes4'] is None
     ids4 = list(range(1, 4096)) if all4 else [i for i in ru.stratified_meshes(4, p['meshes4'], rng) if i != 0]
-    b1(chk, None if all4 else ids4)
-
-    # ---- B2
-    jobs = ru.generate(chk, ids4, 'c11-gen4', NSites=4, OneSrcDst=False, Thin=p['thin'], LinePer=p['lines'],
-                       TwinPer=p['twins'], PairPer=p['pairs'], TriplePer=0, OverlapPer=0, Salt=salt)
+    t0 = time.time()
+    w = ru.share(3)
+    small, four = b1_runs(None if all4 else ids4, w)
+    gen = dict(NSites=4, OneSrcDst=False, Thin=p['thin'], LinePer=p['lines'], TwinPer=p['twins'], PairPer=p['pairs'],
+               TriplePer=0, OverlapPer=0, Salt=salt)
+    parts = ru.slices(ids4, 512)               # bounded memory: generate / replay / judge 512 meshes at a time
+    (n1, r1), (n2, r2), jobs = ru.parallel(small, four, lambda: ru.generate(chk, parts[0], 'c11-gen4', workers=w, **gen))
+    chk.add_mc(n1, r1)
+    chk.add_mc(n2, r2)
+    chk.exhaustive = True
+    timing = dict(b1_and_first_generation=round(time.time() - t0, 1))
+    t1 = time.time()
     stats, traces, metas = ru.b2(chk, PID, jobs, keep=keep_for_c11)
+    for part in parts[1:]:
+        st, _, _ = ru.b2(chk, PID, ru.generate(chk, part, 'c11-gen4', **gen), keep=keep_for_c11)
+        stats = ru.merge_stats(stats, st)
+    timing['b2_replay_and_judgement'] = round(time.time() - t1, 1)
     chk.cov['b2_4sites'] = stats
     if p['meshes5']:
+        t1 = time.time()
         ids5 = [i for i in ru.stratified_meshes(5, p['meshes5'], rng) if i != 0]
-        jobs5 = ru.generate(chk, ids5, 'c11-gen5', NSites=5, OneSrcDst=False, Thin=p['thin5'], LinePer=p['lines'],
-                            TwinPer=p['twins'], PairPer=p['pairs'], TriplePer=0, OverlapPer=0, Salt=salt)
-        stats5, traces5, metas5 = ru.b2(chk, PID, jobs5, keep=keep_for_c11)
+        jobs5 = ru.generate(chk, ids5, 'c11-gen5', **dict(gen, NSites=5, Thin=p['thin5']))
+        stats5, _, _ = ru.b2(chk, PID, jobs5, keep=keep_for_c11)
         chk.cov['b2_5sites'] = stats5
+        timing['b2_5sites'] = round(time.time() - t1, 1)
     # non-vacuity: every verdict of the specification must have been exercised against the code
     for v in ('ROUTED', 'LOOSE_DROPPED', 'NO_PATH', 'NO_PATH_WITH_CONSTRAINT', 'UNDECIDED'):
         if not stats['verdicts'].get(v):
@@ -81,7 +101,10 @@ def run(chk):
                                 oracle=b['info'],
                                 observed=[dict(st=x['st'], sites=x['p']['sites'], reverse=x['rev']['sites'])
                                           for x in ev['res']]))
+    t1 = time.time()
     b3(chk, p, rng)
+    timing['b3'] = round(time.time() - t1, 1)
+    chk.cov['timing_s'] = timing
     chk.assume('generated meshes: 4 (thorough also 5) ROADM sites, at least one link, no parallel links, fibre pairs of '
                '100/200/300 km (whole km: edge weights add 0.01 m per non-fibre hop, so length order = fibre length order)')
     chk.assume('include lists name ROADMs or fibres of existing links, never a transceiver, an unknown element or the '
@@ -91,8 +114,9 @@ def run(chk):
     chk.assume('requests inside a synchronisation group: optimality not claimed (property text); judged by C12')
     chk.assume('trusted: TLC, Json/IOUtils community modules, the projection of element lists in harness/routing_util.py '
                '(sites = ROADM uids, fibre identity = uid prefix given by the generator, has_edge on the designed graph)')
-    chk.cov['tolerance_length'] = 0
-    chk.cov['max_length_deviation_measured'] = 0
+    chk.cov['tolerance'] = ('route length compared in whole km (generated meshes, mesh V2): a hop must be within 0.5 km '
+                            'of its link, totals are compared exactly; CORONET hop lengths within 1 m')
+    chk.cov['max_hop_length_deviation_measured_km'] = stats['max_hop_length_deviation_1e-9km'] * 1e-9
 
 
 def b3(chk, p, rng):
@@ -133,7 +157,8 @@ def b3(chk, p, rng):
                 continue
             evs.append(e)
             meta.append(dict(b, info={}))
-        t = dict(name=f'{fname.split("_Topology")[0]}:seeded', n=bench.nsites, links=bench.arcs, opt=0, tol=0, ev=evs)
+        # lengths in metres, rounded independently on both sides: 1 m of tolerance on a hop (hops are >= 10 km)
+        t = dict(name=f'{fname.split("_Topology")[0]}:seeded', n=bench.nsites, links=bench.arcs, opt=0, tol=1, ev=evs)
         traces.append(t)
         metas[t['name']] = meta
         chk.cov[f'b3_{fname.split("_Topology")[0]}_skipped_timeouts'] = skipped
